@@ -161,4 +161,260 @@ theorem readTagHeader_after (parent : Tag) (st : St) (t : TagT) (buf : Bytes) (i
   show (setA false >>= fun _ => discard (NS.length + 1 + name.length + 1 + i) >>= fun _ => pure _) st = _
   simp only [setA, discard, bind, pure, hdrop]
 
+
+theorem take_drop_prefix (A B : Bytes) (m k : Nat) (hk : k ≤ m) (hA : k + A.length ≤ m) (pre : Bytes) (hp : pre.length = k) :
+    ((pre ++ A ++ B).take m).drop k = A ++ B.take (m - k - A.length) := by
+  rw [List.append_assoc, List.take_append, List.take_of_length_le (by omega), List.drop_append, List.drop_of_length_le (by omega)]
+  simp only [List.nil_append, hp]
+  have : k - k = 0 := by omega
+  rw [Nat.sub_self, List.drop_zero, List.take_append, List.take_of_length_le (by omega)]
+
+/-- **Start tag, names and all.** `<ns:name>` behind any run `ws` of bytes other than '<' (white space between elements;
+up to W − 128 bytes): the tag is reported as the start tag of `identify ns name`, exactly the run and the tag are consumed,
+and no attribute is announced.  The tag must fit the 128-byte look-ahead from its '<' on. -/
+theorem readTagHeader_start_exact (parent : Tag) (st : St) (ws : Bytes) (n0 : UInt8) (ns name R : Bytes)
+    (hr : st.rest = ws ++ 60 :: ((n0 :: ns) ++ 58 :: (name ++ 62 :: R)))
+    (hws : ∀ x ∈ ws, (x == 60) = false) (hwin : ws.length + 128 ≤ W)
+    (h0 : n0 ≠ 47 ∧ n0 ≠ 63) (hns : ∀ x ∈ n0 :: ns, (x == 58) = false) (hname : ∀ x ∈ name, isTerm x = false)
+    (hfit : ns.length + name.length + 4 ≤ 128) (h4 : 4 < st.rest.length) :
+    readTagHeader parent st = (.ok { t := .start, parent := parent.self, self := identify (n0 :: ns) name }, { st with a := false, rest := R }) := by
+  have hr' : st.rest = ws ++ 60 :: n0 :: (ns ++ 58 :: (name ++ 62 :: R)) := by rw [hr]; simp
+  obtain ⟨m, hm, hf⟩ := findTagStart_exact ws (ns ++ 58 :: (name ++ 62 :: R)) n0 hws hwin 15 128 0 st hr' h4 (Nat.zero_le _) (by omega) (by unfold W at hwin; omega)
+  have hc1 : (n0 == 47) = false := by simp [h0.1]
+  have hc2 : (n0 == 63) = false := by simp [h0.2]
+  unfold tagStartResult at hf
+  rw [hc1, hc2] at hf
+  simp only [Bool.false_eq_true, if_false] at hf
+  have hL : st.rest.length = ws.length + 1 + ((n0 :: ns) ++ 58 :: (name ++ 62 :: R)).length := by rw [hr]; simp; omega
+  have hAl : ((n0 :: ns) ++ 58 :: (name ++ [62]) : Bytes).length = ns.length + name.length + 3 := by simp; omega
+  -- the look-ahead holds the whole tag
+  have hbuf : (st.rest.take m).drop (ws.length + 1) = (n0 :: ns) ++ 58 :: (name ++ 62 :: (R.take (m - (ws.length + 1) - (ns.length + name.length + 3)))) := by
+    have e : st.rest = (ws ++ [60]) ++ ((n0 :: ns) ++ 58 :: (name ++ [62])) ++ R := by rw [hr]; simp
+    have hmm : ws.length + 1 + (ns.length + name.length + 3) ≤ m := by
+      have : ws.length + 1 + (ns.length + name.length + 3) ≤ st.rest.length := by rw [hL]; simp; omega
+      omega
+    rw [e, take_drop_prefix _ R m (ws.length + 1) (by omega) (by rw [hAl]; omega) (ws ++ [60]) (by simp), hAl]
+    simp
+  rw [hbuf] at hf
+  refine readTagHeader_after parent st .start _ (ws.length + 1) (n0 :: ns) name _ R hf rfl hns hname ?_
+  rw [hr]
+  have e : (ws ++ 60 :: ((n0 :: ns) ++ 58 :: (name ++ 62 :: R)) : Bytes) = ((ws ++ [60]) ++ ((n0 :: ns) ++ 58 :: (name ++ [62]))) ++ R := by simp
+  have hl : ((ws ++ [60]) ++ ((n0 :: ns) ++ 58 :: (name ++ [62])) : Bytes).length = (n0 :: ns).length + 1 + name.length + 1 + (ws.length + 1) := by
+    simp; omega
+  rw [e, ← hl, List.drop_left]
+
+
+/-- **Stop tag.** `</ns:name>` likewise -/
+theorem readTagHeader_stop_exact (parent : Tag) (st : St) (ws : Bytes) (n0 : UInt8) (ns name R : Bytes)
+    (hr : st.rest = ws ++ 60 :: 47 :: ((n0 :: ns) ++ 58 :: (name ++ 62 :: R)))
+    (hws : ∀ x ∈ ws, (x == 60) = false) (hwin : ws.length + 128 ≤ W)
+    (hns : ∀ x ∈ n0 :: ns, (x == 58) = false) (hname : ∀ x ∈ name, isTerm x = false)
+    (hfit : ns.length + name.length + 5 ≤ 128) :
+    readTagHeader parent st = (.ok { t := .stop, parent := parent.self, self := identify (n0 :: ns) name }, { st with a := false, rest := R }) := by
+  have hL : st.rest.length = ws.length + 2 + ((n0 :: ns) ++ 58 :: (name ++ 62 :: R)).length := by rw [hr]; simp; omega
+  have h4 : 4 < st.rest.length := by rw [hL]; simp; omega
+  obtain ⟨m, hm, hf⟩ := findTagStart_exact ws ((n0 :: ns) ++ 58 :: (name ++ 62 :: R)) 47 hws hwin 15 128 0 st hr h4 (Nat.zero_le _) (by omega) (by unfold W at hwin; omega)
+  unfold tagStartResult at hf
+  simp only [beq_self_eq_true, if_true] at hf
+  have hAl : ((n0 :: ns) ++ 58 :: (name ++ [62]) : Bytes).length = ns.length + name.length + 3 := by simp; omega
+  have hbuf : (st.rest.take m).drop (ws.length + 2) = (n0 :: ns) ++ 58 :: (name ++ 62 :: (R.take (m - (ws.length + 2) - (ns.length + name.length + 3)))) := by
+    have e : st.rest = (ws ++ [60, 47]) ++ ((n0 :: ns) ++ 58 :: (name ++ [62])) ++ R := by rw [hr]; simp
+    have hmm : ws.length + 2 + (ns.length + name.length + 3) ≤ m := by
+      have : ws.length + 2 + (ns.length + name.length + 3) ≤ st.rest.length := by rw [hL]; simp; omega
+      omega
+    rw [e, take_drop_prefix _ R m (ws.length + 2) (by omega) (by rw [hAl]; omega) (ws ++ [60, 47]) (by simp), hAl]
+    simp
+  rw [hbuf] at hf
+  refine readTagHeader_after parent st .stop _ (ws.length + 2) (n0 :: ns) name _ R hf rfl hns hname ?_
+  rw [hr]
+  have e : (ws ++ 60 :: 47 :: ((n0 :: ns) ++ 58 :: (name ++ 62 :: R)) : Bytes) = ((ws ++ [60, 47]) ++ ((n0 :: ns) ++ 58 :: (name ++ [62]))) ++ R := by simp
+  have hl : ((ws ++ [60, 47]) ++ ((n0 :: ns) ++ 58 :: (name ++ [62])) : Bytes).length = (n0 :: ns).length + 1 + name.length + 1 + (ws.length + 2) := by
+    simp; omega
+  rw [e, ← hl, List.drop_left]
+
+
+theorem bind_assoc3 {α β γ} (m : M α) (g : α → M β) (h : β → M γ) : (m >>= g) >>= h = m >>= fun a => g a >>= h := by
+  funext st
+  show (match (match m st with | (.ok a, st') => g a st' | (.error e, st') => (.error e, st')) with
+        | (.ok b, st'') => h b st'' | (.error e, st'') => (.error e, st'')) =
+       (match m st with | (.ok a, st') => (g a >>= h) st' | (.error e, st') => (.error e, st'))
+  cases hm : m st with
+  | mk r s1 => cases r <;> rfl
+
+theorem attrLoop_noattr (seqOf : Option Prop2) (f : Nat) (tag : Tag) (st : St) (ha : st.a = false) :
+    attrLoop seqOf (f + 1) tag st = (.ok tag, st) := by
+  unfold attrLoop
+  rw [bindOk getA _ st st false (by unfold getA; rw [ha])]
+  simp only [Bool.false_eq_true, if_false]
+  rfl
+
+/-- a simple property in element form: `<ns:name>v</ns:name>` -/
+structure Elem where
+  n0 : UInt8
+  ns : Bytes
+  name : Bytes
+  c : UInt8
+  v' : Bytes
+
+def Elem.v (e : Elem) : Bytes := e.c :: e.v'
+def Elem.prop (e : Elem) : Prop2 := identify (e.n0 :: e.ns) e.name
+def Elem.close (e : Elem) : Bytes := 60 :: 47 :: ((e.n0 :: e.ns) ++ 58 :: (e.name ++ [62]))
+def Elem.bytes (e : Elem) : Bytes := 60 :: ((e.n0 :: e.ns) ++ 58 :: (e.name ++ 62 :: (e.v ++ e.close)))
+
+/-- what the theorem asks of an element: a prefix without ':' that does not start with '/' or '?', a local name without
+'>', '/' or white space, both short enough for the 128-byte look-ahead; a value without '<' that does not start with white
+space (leading white space is not part of an element's value) and fits the first 512-byte window; a property that is
+neither an array nor the root -/
+structure Elem.OK (e : Elem) : Prop where
+  h0 : e.n0 ≠ 47 ∧ e.n0 ≠ 63
+  hns : ∀ x ∈ e.n0 :: e.ns, (x == 58) = false
+  hname : ∀ x ∈ e.name, isTerm x = false
+  hfit : e.ns.length + e.name.length + 5 ≤ 128
+  hc : isWs e.c = false
+  hv : ∀ x ∈ e.v, (x == 60) = false
+  hvwin : e.v.length + 1 ≤ 512
+  hseq : (e.prop == rdfSeq || e.prop == rdfAlt || e.prop == rdfBag) = false
+  hroot : (e.prop == rootProp) = false
+
+theorem readTag_unfold (f : Nat) (parent : Tag) : readTag (f + 1) parent = (do
+    let tag ← readTagHeader parent
+    if isEndTag tag parent.self then pure tag
+    else
+      let len ← (fun st => (.ok st.rest.length, st) : M Nat)
+      let tag ← attrLoop none (len + 2) tag
+      let tag ← (if tag.t == .start then
+          (if tag.self == rdfSeq || tag.self == rdfAlt || tag.self == rdfBag then do
+            readSeqTags tag f
+            pure tag
+          else do
+            let v ← readTagValue 8 512 0 0
+            emit { pt := 2, parent := tag.parent, self := tag.self, val := v }
+            readTag f tag)
+        else pure tag : M Tag)
+      if isRootStop tag then pure tag else readTag f parent) := by
+  rfl
+
+
+/-- **Element form, names and all.** One round of readTag over `ws <ns:name>v</ns:name>` reports exactly one token —
+(element, parent, identify ns name, v) — consumes exactly the run and the element, and goes on with the next round. -/
+theorem readTag_element_exact (parent : Tag) (st : St) (ws : Bytes) (e : Elem) (R : Bytes) (f : Nat)
+    (hr : st.rest = ws ++ e.bytes ++ R) (hws : ∀ x ∈ ws, (x == 60) = false) (hwin : ws.length + 128 ≤ W) (ok : e.OK) :
+    readTag (f + 2) parent st =
+      readTag (f + 1) parent { rest := R, a := false, toks := { pt := 2, parent := parent.self, self := e.prop, val := e.v } :: st.toks } := by
+  rw [readTag_unfold (f + 1) parent]
+  -- the start tag
+  have hr1 : st.rest = ws ++ 60 :: ((e.n0 :: e.ns) ++ 58 :: (e.name ++ 62 :: (e.v ++ e.close ++ R))) := by
+    rw [hr]; simp [Elem.bytes]
+  have h4 : 4 < st.rest.length := by rw [hr1]; simp [Elem.v]; omega
+  rw [bindOk _ _ _ _ _ (readTagHeader_start_exact parent st ws e.n0 e.ns e.name _ hr1 hws hwin ok.h0 ok.hns ok.hname (by have := ok.hfit; omega) h4)]
+  have he1 : isEndTag { t := .start, parent := parent.self, self := identify (e.n0 :: e.ns) e.name } parent.self = false := by
+    simp [isEndTag]
+  simp only [he1, Bool.false_eq_true, if_false]
+  rw [bindOk (fun st => (.ok st.rest.length, st) : M Nat) _ _ _ _ rfl]
+  rw [bindOk _ _ _ _ _ (attrLoop_noattr none _ _ _ rfl)]
+  have hseq := ok.hseq
+  unfold Elem.prop at hseq
+  simp only [beq_self_eq_true, if_true, hseq, Bool.false_eq_true, if_false]
+  -- the value
+  have hpk : peek 512 { st with a := false, rest := e.v ++ e.close ++ R } =
+      (.ok (e.v ++ [60] ++ ((47 :: ((e.n0 :: e.ns) ++ 58 :: (e.name ++ [62])) ++ R).take (512 - e.v.length - 1))), { st with a := false, rest := e.v ++ e.close ++ R }) := by
+    rw [peek_take 512 _ (by unfold W; omega) (by simp [Elem.close, Elem.v]; omega)]
+    congr 2
+    show (e.v ++ e.close ++ R).take 512 = _
+    have hvw := ok.hvwin
+    have e1 : (e.v ++ e.close ++ R : Bytes) = (e.v ++ [60]) ++ (47 :: ((e.n0 :: e.ns) ++ 58 :: (e.name ++ [62])) ++ R) := by simp [Elem.close]
+    rw [e1, List.take_append, List.take_of_length_le (by simp; omega)]
+    have hn : 512 - (e.v ++ [60] : Bytes).length = 512 - e.v.length - 1 := by simp; omega
+    rw [hn]
+  rw [bind_assoc3, bindOk _ _ _ _ _ (elem_value_exact 7 512 _ e.v _ e.c e.v' rfl ok.hv ok.hc hpk)]
+  dsimp only
+  have hd : (e.v ++ e.close ++ R : Bytes).drop e.v.length = e.close ++ R := by
+    rw [List.append_assoc, List.drop_left]
+  rw [hd, bind_assoc3]
+  have hemit : emit { pt := 2, parent := parent.self, self := identify (e.n0 :: e.ns) e.name, val := e.v }
+      { rest := e.close ++ R, a := false, toks := st.toks } =
+      (.ok (), { rest := e.close ++ R, a := false, toks := { pt := 2, parent := parent.self, self := identify (e.n0 :: e.ns) e.name, val := e.v } :: st.toks }) := by
+    simp [emit, Elem.v]
+  rw [bindOk _ _ _ _ _ hemit]
+  -- the stop tag, read by the inner round
+  rw [readTag_unfold f { t := .start, parent := parent.self, self := identify (e.n0 :: e.ns) e.name }, bind_assoc3]
+  have hr2 : (e.close ++ R : Bytes) = [] ++ 60 :: 47 :: ((e.n0 :: e.ns) ++ 58 :: (e.name ++ 62 :: R)) := by simp [Elem.close]
+  rw [bindOk _ _ _ _ _ (readTagHeader_stop_exact { t := .start, parent := parent.self, self := identify (e.n0 :: e.ns) e.name }
+    { rest := e.close ++ R, a := false, toks := { pt := 2, parent := parent.self, self := identify (e.n0 :: e.ns) e.name, val := e.v } :: st.toks }
+    [] e.n0 e.ns e.name R hr2 (by simp) (by unfold W; simp) ok.hns ok.hname ok.hfit)]
+  have he2 : isEndTag { t := .stop, parent := identify (e.n0 :: e.ns) e.name, self := identify (e.n0 :: e.ns) e.name } (identify (e.n0 :: e.ns) e.name) = true := by
+    simp [isEndTag]
+  dsimp only
+  rw [he2]
+  simp only [if_true]
+  have hroot := ok.hroot
+  unfold Elem.prop at hroot
+  have hrs : isRootStop { t := .stop, parent := identify (e.n0 :: e.ns) e.name, self := identify (e.n0 :: e.ns) e.name } = false := by
+    simp [isRootStop, hroot]
+  rw [bindOk (pure _) _ _ _ _ rfl]
+  simp only [hrs, Bool.false_eq_true, if_false]
+  rfl
+
+
+/-- a run of simple elements, each behind its own white space -/
+def serE : List (Bytes × Elem) → Bytes
+  | [] => []
+  | (ws, e) :: l => ws ++ e.bytes ++ serE l
+
+/-- the tokens the parser layer receives for them (newest first) -/
+def pushE (parent : Prop2) : List (Bytes × Elem) → List Tok → List Tok
+  | [], acc => acc
+  | (_, e) :: l, acc => pushE parent l ({ pt := 2, parent := parent, self := e.prop, val := e.v } :: acc)
+
+/-- **A whole list of simple elements** (the children of an rdf:Description, in any order, with any white space between
+them): one token per element, in document order, nothing else consumed or reported; the rounds of readTag go on behind
+the last element. -/
+theorem readTag_elements_exact (parent : Tag) (R : Bytes) : ∀ (l : List (Bytes × Elem)) (f : Nat) (st : St),
+    st.a = false → st.rest = serE l ++ R →
+    (∀ p ∈ l, (∀ x ∈ p.1, (x == 60) = false) ∧ p.1.length + 128 ≤ W ∧ p.2.OK) →
+    readTag (f + 1 + l.length) parent st = readTag (f + 1) parent { rest := R, a := false, toks := pushE parent.self l st.toks } := by
+  intro l
+  induction l with
+  | nil =>
+    intro f st ha hr _
+    have : st = { rest := R, a := false, toks := st.toks } := by
+      cases st; simp_all [serE]
+    simp only [List.length_nil, Nat.add_zero, pushE]
+    rw [← this]
+  | cons p l ih =>
+    intro f st ha hr hok
+    obtain ⟨ws, e⟩ := p
+    have hp := hok (ws, e) (by simp)
+    have hfuel : f + 1 + ((ws, e) :: l).length = (f + l.length) + 2 := by simp; omega
+    rw [hfuel, readTag_element_exact parent st ws e (serE l ++ R) (f + l.length) (by rw [hr]; simp [serE]) hp.1 hp.2.1 hp.2.2]
+    have hfuel2 : f + l.length + 1 = f + 1 + l.length := by omega
+    rw [hfuel2, ih f _ rfl rfl (fun q hq => hok q (List.mem_cons_of_mem _ hq))]
+    rfl
+
+/-- the same property written as an attribute and as an element -/
+def Attr.toElem (a : Attr) (c : UInt8) (v' : Bytes) : Elem := { n0 := a.n0, ns := a.ns, name := a.m0 :: a.name, c := c, v' := v' }
+
+/-- what the value parsers dispatch on -/
+def Tok.key (t : Tok) : Prop2 × Prop2 × Bytes := (t.parent, t.self, t.val)
+
+/-- **Attribute form = element form.** The token reported for `ns:name="v"` inside a tag and the token reported for
+`<ns:name>v</ns:name>` below that tag carry the same parent, the same property and the same value; they differ only in
+the kind (attribute / element) — so do whole lists -/
+theorem attr_elem_same_tokens (P : Prop2) : ∀ (l : List (Bytes × Bytes × Attr × UInt8 × Bytes)) (acc acc' : List Tok),
+    (∀ p ∈ l, p.2.2.1.v = p.2.2.2.1 :: p.2.2.2.2) → acc.map Tok.key = acc'.map Tok.key →
+    (pushAll P (l.map fun p => (p.1, p.2.2.1)) acc).map Tok.key =
+    (pushE P (l.map fun p => (p.2.1, p.2.2.1.toElem p.2.2.2.1 p.2.2.2.2)) acc').map Tok.key := by
+  intro l
+  induction l with
+  | nil => intro acc acc' _ h; exact h
+  | cons p l ih =>
+    intro acc acc' hv h
+    obtain ⟨ws, ws', a, c, v'⟩ := p
+    have hva : a.v = c :: v' := hv (ws, ws', a, c, v') (by simp)
+    simp only [List.map_cons, pushAll, pushE]
+    have hne : a.v.isEmpty = false := by rw [hva]; rfl
+    simp only [hne, Bool.false_eq_true, if_false]
+    apply ih _ _ (fun q hq => hv q (List.mem_cons_of_mem _ hq))
+    simp only [List.map_cons, h, Tok.key, Attr.prop, Elem.prop, Attr.toElem, Elem.v, hva]
+
 end Imeta.Xmp
